@@ -33,33 +33,46 @@ contract("filter_expressions:LogicalExpression.evaluate",
     requires=EV_REQ, unfold=["wf_logical_e", "eval_logical", "is_json"],
     ensures=EV_ENS, raises=["JSONPathError"], props=["C02", "C13"])
 
-contract("filter_expressions:ComparisonExpression.evaluate", heavy=True,
+contract("filter_expressions:ComparisonExpression.evaluate",
     requires=EV_REQ, unfold=["wf_comparison_e", "eval_comparison", "is_json"],
-    ensures=EV_ENS, raises=["JSONPathError"], props=["C06", "C02", "C13"],
-    lemmas=["singular_at_most_one"])
+    ensures=EV_ENS, raises=["JSONPathError"], props=["C06", "C02", "C13"])
 
-contract("filter_expressions:RelativeFilterQuery.evaluate", heavy=True,
-    requires=EV_REQ, unfold=["eval_relative", "wf_query", "wf_ctx"],
+LEM_REL = [("singular_at_most_one", {"segments": "seq(self.query.segments)",
+                                     "nodes": "[Node(context.current, mk_tuple([]), context.root)]", "k": "len(self.query.segments)"})]
+LEM_ROOT = [("singular_at_most_one", {"segments": "seq(self.query.segments)",
+                                      "nodes": "[root_node(context.root)]", "k": "len(self.query.segments)"})]
+
+contract("filter_expressions:RelativeFilterQuery.evaluate",
+    requires=EV_REQ, unfold=["eval_relative", "wf_query", "wf_ctx"], lemmas=LEM_REL,
     ensures=EV_ENS,
     loops={1: ["wf_nodes(nodes)",
                "implies(no_pending(nodes), seq(nodes) == apply_segments(seq(self.query.segments), [Node(context.current, mk_tuple([]), context.root)], i1))"]},
     raises=["JSONPathError"], props=["C02", "C10", "C13"])
 
-contract("filter_expressions:RootFilterQuery.evaluate", heavy=True,
-    requires=EV_REQ, unfold=["eval_root", "wf_query"],
-    ensures=EV_ENS, raises=["JSONPathError"], props=["C02", "C13"])
+contract("filter_expressions:RootFilterQuery.evaluate",
+    requires=EV_REQ, unfold=["eval_root", "wf_ctx", "wf_query"], lemmas=LEM_ROOT,
+    ensures=EV_ENS,
+    raises=["JSONPathError"], props=["C02", "C13"])
+
+_TYPES = "seq(get(context.env.function_extensions, str_of(self.name)).arg_types)"
+_VALS = "map_eval_expr(seq(self.args), context, len(self.args))"
 
 contract("filter_expressions:FunctionExtension.evaluate", heavy=True,
-    requires=EV_REQ, unfold=["wf_call_e", "eval_call", "wf_env", "wf_registry"],
+    requires=EV_REQ, unfold=["wf_call_e", "eval_call", "wf_ctx", "wf_env", "wf_registry", "wf_func", "conv_arg"],
+    lemmas=[("map_eval_expr_nth", {"exprs": "seq(self.args)", "ctx": "context", "k": "len(self.args)"}),
+            ("conv_vals_nth", {"types": _TYPES, "vals": _VALS, "k": "len(self.args)"})],
     ensures=EV_ENS, raises=["JSONPathError"], props=["C10", "C13"])
 
-contract("filter_expressions:FunctionExtension._unpack_node_lists", heavy=True,
-    requires=["wf_func(func)", "is_arr(args)", "len(args) == len(func.arg_types)"], unfold=["wf_func"],
+contract("filter_expressions:FunctionExtension._unpack_node_lists",
+    requires=["wf_func(func)", "is_arr(args)", "len(args) == len(func.arg_types)",
+              "all(implies(is_nodelist(seq(args)[j]), all_wf_nodes(seq(seq(args)[j])) and implies(seq(func.arg_types)[j] == ExpressionType.VALUE, len(seq(args)[j]) <= 1)) for j in range(len(args)))"],
+    unfold=["wf_func", "conv_arg", "conv_vals"],
     ensures=["result == mk_list(conv_vals(seq(func.arg_types), seq(args), len(args)))"],
-    loops={1: ["_args == mk_list(conv_vals(seq(func.arg_types), seq(args), i1))"]},
-    raises=[], props=["C10"])
+    loops={1: ["is_arr(_args)", "_args == mk_list(conv_vals(seq(func.arg_types), seq(args), i1))"]},
+    raises=[], props=["C10"],
+    note="a ValueType argument that is a nodelist comes from a singular query (<= 1 node): established by the caller from eval_typed")
 
-contract("filter_expressions:_compare",
+contract("filter_expressions:_compare", unfold=["rfc_compare"],
     requires=["is_str(operator)",
               "implies(str_of(operator) == '&&' or str_of(operator) == '||', (is_nodelist(left) or is_bool(left)) and (is_nodelist(right) or is_bool(right)))",
               "implies(not (str_of(operator) == '&&' or str_of(operator) == '||'), is_cmp_arg(left) and is_cmp_arg(right))"],
@@ -95,13 +108,16 @@ contract("function_extensions.filter_function:FilterFunction.__call__", abstract
     note="A8: registered functions honour their declared types, do not raise and do not mutate their arguments")
 
 contract("function_extensions.length:Length.__call__",
-    requires=["is_operand(obj)"], unfold=["is_json"],
-    ensures=["result == rfc_length(obj)"], raises=[], props=["C10", "C13"])
+    requires=["is_operand(obj)"], unfold=["is_json", "call_func"],
+    ensures=["result == rfc_length(obj)", "result == call_func(self, [obj])", "result_has_type(ExpressionType.VALUE, result)"],
+    raises=[], props=["C10", "C13"])
 
 contract("function_extensions.count:Count.__call__",
-    requires=["is_nodelist(node_list)"],
-    ensures=["result == len(node_list)"], raises=[], props=["C10"])
+    requires=["is_nodelist(node_list)"], unfold=["call_func", "is_json"],
+    ensures=["result == len(node_list)", "result == call_func(self, [node_list])", "result_has_type(ExpressionType.VALUE, result)"],
+    raises=[], props=["C10"])
 
 contract("function_extensions.value:Value.__call__",
-    requires=["is_nodelist(nodes)", "all_wf_nodes(seq(nodes))"],
-    ensures=["result == rfc_value(nodes)"], raises=[], props=["C10"])
+    requires=["is_nodelist(nodes)", "all_wf_nodes(seq(nodes))"], unfold=["call_func"],
+    ensures=["result == rfc_value(nodes)", "result == call_func(self, [nodes])", "result_has_type(ExpressionType.VALUE, result)"],
+    raises=[], props=["C10"])
